@@ -53,7 +53,9 @@ JudgeHist(e) ==
 \* original did (deep equality alone cannot see that writing one element changes another)
 \* features of the original that have a known as-implemented reading (classification of a failed round trip)
 RECURSIVE Feat(_)
-Feat(tv) == IF tv.g \in {"ptr", "iface"} THEN (IF "cyc" \in DOMAIN tv THEN {"embedded-pointer-cycle"} ELSE {}) \cup UNION {Feat(tv.a[i]) : i \in 1..Len(tv.a)}
+Feat(tv) == IF tv.g \in {"ptr", "iface"} THEN (IF "cyc" \in DOMAIN tv THEN {"embedded-pointer-cycle"} ELSE {})
+                                              \cup (IF tv.g = "ptr" /\ ~tv.nil /\ tv.a[1].g = "ptr" THEN {"pointer-to-pointer"} ELSE {})
+                                              \cup UNION {Feat(tv.a[i]) : i \in 1..Len(tv.a)}
             ELSE IF tv.g \in {"slice", "array", "map"} THEN
                  (IF tv.g = "slice" /\ tv.byt THEN {"bytes"} ELSE {})
                  \cup (IF \E i \in 1..Len(tv.a) : tv.a[i].g = "ptr" /\ tv.a[i].nil THEN {"nil-pointer-element"} ELSE {})
@@ -83,7 +85,8 @@ AsImpl6(tv) == IF tv.g \in {"ptr", "iface", "slice", "array", "map"} THEN [tv EX
                ELSE tv
 Class(e) == LET F == Feat(e.orig) IN
             \* (an unsigned member above MaxInt64 is parsed as a signed integer: value out of range)
-            IF ~e.ok THEN (IF "embedded-pointer" \in F THEN "embedded-pointer" ELSE IF "bytes" \in F THEN "bytes-as-string"
+            IF ~e.ok THEN (IF "pointer-to-pointer" \in F THEN "pointer-to-pointer"     \* recomp has no case for a pointer below a pointer
+                           ELSE IF "embedded-pointer" \in F THEN "embedded-pointer" ELSE IF "bytes" \in F THEN "bytes-as-string"
                            ELSE IF "uint64-upper-half" \in F THEN "uint64-upper-half"
                            ELSE IF "named-scalar" \in F THEN "named-scalar" ELSE IF "nil-pointer-element" \in F THEN "nil-pointer-element" ELSE "-")
             ELSE IF "embedded-pointer" \in F THEN "embedded-pointer"     \* sen.String yields "" for it (C15 F3), read back as nothing
